@@ -71,11 +71,11 @@ def peer_ledger(o, i):
 
 CFG = dict(
     streams=[('flow', 3000, 60000, 'http2test'), ('sched', 1000, 20000, 'http2test'), ('h2rx', 1500, 30000, 'http2test'),
-             ('h2tx', 1500, 30000, 'http2test')],
-    oracle_ops=set(),
+             ('h2tx', 1500, 30000, 'http2test'), ('h2stx', 400, 8000, 'http2test')],
+    oracle_ops={'schedtrace', 'h2stx'},
     self_evident=peer_ledger,
-    twophase_ops={'sched'},
-    http2_ops={'flow', 'sched', 'h2rx', 'h2tx'},
+    twophase_ops={'sched', 'schedtrace'},
+    http2_ops={'flow', 'sched', 'schedtrace', 'h2rx', 'h2tx', 'h2stx'},
     rule=("(a) operation sequences on the real inflow / outflow (init, add, take, takeInflows, outflow add/take/available, stream "
           "and connection level) with boundary values 0, 1, 4095..4097, 65535, 2^31-2, 2^31-1, negative and overflowing "
           "updates; every return value, panic and the final counters compared with the model; (b) scheduler sequences "
